@@ -57,6 +57,10 @@ def size_cmp_edges(ig, live, var_pred):
 
 def run(ctx):
     fb = ctx.fb
+    # ---------------------------------------------------------------- Q1 the queue this component re-sizes keeps tickets and rounds in step
+    # (set_queue_capacity() relies on ConcurrentBoundedQueue::reserve_and_clear; the clause is C01.R11, evaluated on the queue instantiation used here)
+    import C01 as _C01
+    _C01.geometry_rebase(ctx, "C10.Q1", fb)
     gcs = fb.find(pred=lambda f: is_gc(f) and f.has_cfg())
     ctx.floor("C10.fns", len(gcs), 14, "GarbageCollector member function instances")
     called = set()
